@@ -1150,7 +1150,8 @@ class P(Prop):
     def gen_carry(self, rng):
         n = rng.choice([2, 3, 3, 4, 5])
         pool = ["a", "b", "c"] if rng.random() < 0.7 else self.rand_pool(rng)
-        pre = self.gen_history(rng, n, rng.choice([1, 2, 3, 5]), pool, False)
+        rich = rng.random() < 0.3          # one alphabet for the whole case: numpy-valued operators and raising arithmetic stay apart
+        pre = self.gen_history(rng, n, rng.choice([1, 2, 3, 5]), pool, rich)
         r = rng.random()
         if r < 0.25:
             carry = ["copy"]
@@ -1171,10 +1172,10 @@ class P(Prop):
             if rng.random() < 0.85:
                 carry = ["plus", m, [resize(op) for op in pre], "same"]
             else:
-                carry = ["plus", m, self.gen_history(rng, m, rng.choice([0, 1, 2]), pool, False), "other"]
+                carry = ["plus", m, self.gen_history(rng, m, rng.choice([0, 1, 2]), pool, rich), "other"]
         dn = {"copy": n, "extract": carry[2] - carry[1] + 1 if carry[0] == "extract" else 0,
               "slice": carry[2] - carry[1] if carry[0] == "slice" else 0, "plus": n + (carry[1] if carry[0] == "plus" else 0)}[carry[0]]
-        ops = self.gen_history(rng, dn, rng.choice([1, 2, 4, 8]), pool, rng.random() < 0.3)
+        ops = self.gen_history(rng, dn, rng.choice([1, 2, 4, 8]), pool, rich)
         return {"kind": "carry", "n": n, "pool": pool, "pre": pre, "carry": carry, "ops": ops}
 
     def describe(self, case):
